@@ -74,6 +74,22 @@ def gen_case(rng, primes, stats):
         k = [rng.range(lo, 255) if rng.chance(0.2) else rng.range(max(lo, 32), 126) for _ in range(rng.range(1, 4))]
         if bucket_of(size, nocase, binm, k) == target and k not in pool:
             pool.append(k)
+    # same-bucket keys of equal length that agree up to and including an embedded zero (binary mode)
+    # or up to a long common prefix (string mode) and differ only afterwards
+    if rng.chance(0.7):
+        pre = [rng.range(1, 255) for _ in range(rng.range(0, 2))] + ([0] if binm else [rng.range(33, 126)])
+        fam, t2 = [], 0
+        tgt = None
+        while len(fam) < rng.range(2, 4) and t2 < 60000:
+            t2 += 1
+            k = pre + [rng.range(lo, 255), rng.range(lo, 255)]
+            b = bucket_of(size, nocase, binm, k)
+            if tgt is None:
+                tgt = b
+            if b == tgt and k not in fam:
+                fam.append(k)
+        pool += fam
+        stats["shared_prefix_families"] = stats.get("shared_prefix_families", 0) + (1 if len(fam) >= 2 else 0)
     # prefixes of each other, case variants, empty key, embedded zeros, high bytes
     base = [rng.range(97, 122) for _ in range(3)]
     pool += [base[:1], base[:2], base]
